@@ -258,6 +258,9 @@ impl Interpreter {
                 let x = state.stack.pop_bytes()?;
                 let n = state.stack.pop_number()?;
 
+                if n < 0 || n as usize > x.len() {
+                    return Err(InterpreterError::InvalidStackOperation("OP_SPLIT position is out of range"));
+                }
                 let (x1, x2) = x.split_at(n as usize);
                 state.stack.push_bytes(x1.to_vec());
                 state.stack.push_bytes(x2.to_vec());
